@@ -108,6 +108,10 @@ def main():
                 h.conn.close()
             except Exception:
                 pass
+        if args.get("shared_input"):
+            # ONE DataIterator object made before the fork; every child imports from it
+            from gffutils.iterators import DataIterator
+            state["shared_it"] = DataIterator(args["shared_input"])
         parent_log = list(log)
         del log[:]
         pids = []
@@ -192,7 +196,9 @@ def run_importer(args, gffutils, log, state, tmpdir):
     err = None
     kw = {"force": True} if args.get("force") else {}
     try:
-        if args.get("from_string"):
+        if args.get("shared_iterator"):
+            db = gffutils.create_db(state["shared_it"], args["out_db"], **kw)
+        elif args.get("from_string"):
             data = open(args["input"], encoding="utf-8").read()
             db = gffutils.create_db(data, args["out_db"], from_string=True, **kw)
         else:
